@@ -22,7 +22,8 @@ type op struct {
 	A    int    `json:"a,omitempty"`
 	B    int    `json:"b,omitempty"`
 	Mask uint32 `json:"m,omitempty"`
-	D    int    `json:"d,omitempty"` // propT: one account named twice: 1/2 identical string (last/first), 3/4 upper-case spelling (last/first)
+	Ms   int    `json:"ms,omitempty"` // milliseconds added to: the exec-time offset B (propT/propF), the step A (end), the landing offset A (endx/endv; may be negative)
+	D    int    `json:"d,omitempty"`  // propT: one account named twice: 1/2 identical string (last/first), 3/4 upper-case spelling (last/first)
 }
 
 type c18Case struct {
@@ -124,9 +125,9 @@ func (g *opw) noiseOp() {
 	case 6:
 		g.emit(op{K: "end", A: gen.OneOf(rt, "dt", 1, 1, 1, 2, 3)})
 	case 7:
-		g.emit(op{K: "propT", D: g.dupD(1, 6), Mask: g.memberMask(), A: gen.Uniform(rt, "thr", 4), B: g.execOffset(5)})
+		g.emit(op{K: "propT", Ms: g.execMs(), D: g.dupD(1, 6), Mask: g.memberMask(), A: gen.Uniform(rt, "thr", 4), B: g.execOffset(5)})
 	case 8:
-		g.emit(op{K: "propF", A: gen.OneOf(rt, "fsel", 0, 1, 2, 100, 101, selDKG, selFallen, selExpired, selGhost), B: g.execOffset(2)})
+		g.emit(op{K: "propF", Ms: g.execMs(), A: gen.OneOf(rt, "fsel", 0, 1, 2, 100, 101, selDKG, selFallen, selExpired, selGhost), B: g.execOffset(2)})
 	case 9:
 		g.emit(op{K: "dkg", A: gen.Uniform(rt, "g", 2), Mask: 0xff})
 	}
@@ -143,10 +144,44 @@ func (g *opw) noise(num, den int) {
 // block end: either a plain step or a jump onto ExecTime + {-1,0,+1}
 func (g *opw) end(onExec bool) {
 	if onExec {
-		g.emit(op{K: "endx", A: gen.OneOf(g.rt, "xn", -1, 0, 0, 1)})
+		g.endx(gen.OneOf(g.rt, "xn", -1, 0, 0, 0, 1))
 		return
 	}
-	g.emit(op{K: "end", A: gen.OneOf(g.rt, "dt", 1, 1, 1, 1, 2)})
+	g.emit(op{K: "end", A: gen.OneOf(g.rt, "dt", 1, 1, 1, 1, 2), Ms: gen.OneOf(g.rt, "dtms", 0, 0, 0, 0, 0, 1, 500, 900)})
+}
+
+// endx lands a block on ExecTime + a seconds; when a == 0 the landing is placed within the same second: just before
+// ExecTime (then a second block lands on it or right behind it), exactly on it, or just after it.
+func (g *opw) endx(a int) {
+	rt := g.rt
+	if a != 0 {
+		g.emit(op{K: "endx", A: a})
+		return
+	}
+	switch gen.Pick(rt, "xms", 5, 3, 2) {
+	case 0:
+		g.emit(op{K: "endx"})
+	case 1:
+		g.emit(op{K: "endx", Ms: gen.OneOf(rt, "xbefore", -900, -100, -100, -1, -1)}, op{K: "endx", Ms: gen.OneOf(rt, "xthen", 0, 0, 1, 100)})
+	default:
+		g.emit(op{K: "endx", Ms: gen.OneOf(rt, "xafter", 1, 100)})
+	}
+}
+
+// endv lands a block on the end of the voting period (+ a seconds), sometimes preceded by a block just before it.
+func (g *opw) endv(a int) {
+	if a == 0 && gen.Chance(g.rt, "vbefore", 1, 10) {
+		g.emit(op{K: "endv", Ms: gen.OneOf(g.rt, "vms", -1, -100)})
+	}
+	g.emit(op{K: "endv", A: a})
+}
+
+// execMs: the sub-second part of an execution time (0 = whole second)
+func (g *opw) execMs() int {
+	if gen.Chance(g.rt, "execwhole", 2, 5) {
+		return 0
+	}
+	return gen.OneOf(g.rt, "execms", 1, 100, 500, 900, 900, 999)
 }
 
 // transition through a new group: proposal, three DKG rounds, hand-over signing, waiting, execution
@@ -164,23 +199,23 @@ func (g *opw) transitionSegment() {
 	target := gen.Pick(rt, "target", 3, 1, 1, 5, 5, 1)
 	need := []int{7, 2, 3, 4, 5, 1}[target]
 	if target == 5 {
-		g.emit(op{K: "propT", D: g.dupD(1, 10), Mask: g.memberMask(), A: gen.Uniform(rt, "thr", 4), B: g.c.Min + gen.OneOf(rt, "p5", 0, 0, 1)})
+		g.emit(op{K: "propT", Ms: g.execMs(), D: g.dupD(1, 10), Mask: g.memberMask(), A: gen.Uniform(rt, "thr", 4), B: g.c.Min + gen.OneOf(rt, "p5", 0, 0, 1)})
 	} else {
-		g.emit(op{K: "propT", D: g.dupD(1, 10), Mask: g.memberMask(), A: gen.Uniform(rt, "thr", 4), B: g.execOffset(need)})
+		g.emit(op{K: "propT", Ms: g.execMs(), D: g.dupD(1, 10), Mask: g.memberMask(), A: gen.Uniform(rt, "thr", 4), B: g.execOffset(need)})
 	}
 	g.noise(1, 8)
 	g.emit(op{K: "end", A: 1})
 	if gen.Chance(rt, "second", 1, 6) { // a second proposal while the first is pending
 		if gen.Chance(rt, "secondF", 1, 2) {
-			g.emit(op{K: "propF", A: gen.OneOf(rt, "fsel", 0, 1, 100), B: g.execOffset(3)})
+			g.emit(op{K: "propF", Ms: g.execMs(), A: gen.OneOf(rt, "fsel", 0, 1, 100), B: g.execOffset(3)})
 		} else {
-			g.emit(op{K: "propT", D: g.dupD(1, 6), Mask: g.memberMask(), A: gen.Uniform(rt, "thr", 4), B: g.execOffset(6)})
+			g.emit(op{K: "propT", Ms: g.execMs(), D: g.dupD(1, 6), Mask: g.memberMask(), A: gen.Uniform(rt, "thr", 4), B: g.execOffset(6)})
 		}
 		if gen.Chance(rt, "second-sameblock", 1, 2) {
 			g.emit(op{K: "end", A: 1})
 		}
 	}
-	g.emit(op{K: "endv", A: gen.OneOf(rt, "vn", 0, 0, 0, 1)})
+	g.endv(gen.OneOf(rt, "vn", 0, 0, 0, 1))
 	for r := 1; r <= 3; r++ {
 		g.noise(1, 10)
 		switch gen.Pick(rt, "dkgv", 16, 2, 1, 1, 1) {
@@ -243,13 +278,13 @@ func (g *opw) forceSegment() {
 	if gen.Chance(rt, "fmin", 1, 2) {
 		off = g.c.Min + gen.OneOf(rt, "f5", 0, 0, 1)
 	}
-	g.emit(op{K: "propF", A: gen.OneOf(rt, "fsel", 0, 0, 0, 0, 0, 1, 2, 100, 101, selDKG, selGhost), B: off})
+	g.emit(op{K: "propF", Ms: g.execMs(), A: gen.OneOf(rt, "fsel", 0, 0, 0, 0, 0, 1, 2, 100, 101, selDKG, selGhost), B: off})
 	g.noise(1, 8)
 	g.emit(op{K: "end", A: 1})
 	if gen.Chance(rt, "second", 1, 6) {
-		g.emit(op{K: "propT", D: g.dupD(1, 6), Mask: g.memberMask(), A: gen.Uniform(rt, "thr", 4), B: g.execOffset(6)}, op{K: "end", A: 1})
+		g.emit(op{K: "propT", Ms: g.execMs(), D: g.dupD(1, 6), Mask: g.memberMask(), A: gen.Uniform(rt, "thr", 4), B: g.execOffset(6)}, op{K: "end", A: 1})
 	}
-	g.emit(op{K: "endv", A: gen.OneOf(rt, "vn", 0, 0, 0, 1)})
+	g.endv(gen.OneOf(rt, "vn", 0, 0, 0, 1))
 	for i, n := 0, gen.Range(rt, "waitn", 0, 2); i < n; i++ {
 		g.noise(1, 3)
 		g.emit(op{K: "req", A: gen.Uniform(rt, "u", nReq), B: gen.Pick(rt, "feev", 5, 2, 1)})
@@ -289,7 +324,7 @@ func (g *opw) dupMemberSegment() {
 	}
 	g.emit(op{K: "actall"}, op{K: "desall", B: 2}, op{K: "end", A: 1})
 	d := gen.OneOf(rt, "dupkind", 1, 2, 3, 3, 3, 3, 4, 4, 4, 4)
-	g.emit(op{K: "propT", D: d, Mask: g.memberMask(), A: gen.Uniform(rt, "thr", 4), B: gen.Range(rt, "offd", 6, 8)}, op{K: "end", A: 1}, op{K: "endv"})
+	g.emit(op{K: "propT", Ms: g.execMs(), D: d, Mask: g.memberMask(), A: gen.Uniform(rt, "thr", 4), B: gen.Range(rt, "offd", 6, 8)}, op{K: "end", A: 1}, op{K: "endv"})
 	for r := 0; r < 3; r++ {
 		g.emit(op{K: "dkg", Mask: 0xff}, op{K: "end", A: 1})
 	}
@@ -297,7 +332,7 @@ func (g *opw) dupMemberSegment() {
 		g.emit(op{K: "req", A: gen.Uniform(rt, "u", nReq)})
 	}
 	g.emit(op{K: "sign", Mask: 0xff}, op{K: "end", A: 1})
-	g.emit(op{K: "endx", A: gen.OneOf(rt, "xn", 0, 0, 1)})
+	g.endx(gen.OneOf(rt, "xn", 0, 0, 1))
 	g.after()
 }
 
@@ -337,7 +372,7 @@ func (g *opw) forceNonActiveSegment() {
 		return off
 	}
 	propT := func(off int) {
-		g.emit(op{K: "propT", Mask: g.memberMask(), A: gen.Uniform(rt, "thr", 4), B: off}, op{K: "end", A: 1}, op{K: "endv"})
+		g.emit(op{K: "propT", Ms: g.execMs(), Mask: g.memberMask(), A: gen.Uniform(rt, "thr", 4), B: off}, op{K: "end", A: 1}, op{K: "endv"})
 	}
 	round := func() { g.emit(op{K: "dkg", Mask: 0xff}, op{K: "end", A: 1}) }
 	force := func(sel int) {
@@ -346,7 +381,7 @@ func (g *opw) forceNonActiveSegment() {
 		if gen.Chance(rt, "foff", 1, 4) {
 			off = g.execOffset(2)
 		}
-		g.emit(op{K: "propF", A: sel + gen.OneOf(rt, "seli", 0, 0, 0, 1), B: clipOr(off, c, gen.Chance(rt, "fclip", 7, 8))})
+		g.emit(op{K: "propF", Ms: g.execMs(), A: sel + gen.OneOf(rt, "seli", 0, 0, 0, 1), B: clipOr(off, c, gen.Chance(rt, "fclip", 7, 8))})
 		if gen.Chance(rt, "freq", 1, 3) {
 			g.emit(op{K: "req", A: gen.Uniform(rt, "u", nReq)})
 		}
@@ -373,7 +408,7 @@ func (g *opw) forceNonActiveSegment() {
 		if variant == 1 {
 			g.emit(op{K: "stop", B: gen.Uniform(rt, "who", 4)}, op{K: "dkg", Mask: 0xff})
 		}
-		g.emit(op{K: "endx", A: gen.OneOf(rt, "xn", 0, 0, 1)}) // still CREATING_GROUP at ExecTime: dropped
+		g.endx(gen.OneOf(rt, "xn", 0, 0, 1)) // still CREATING_GROUP at ExecTime: dropped
 		if gen.Chance(rt, "idle", 1, 4) {
 			g.emit(op{K: "end", A: 1})
 		}
@@ -402,7 +437,7 @@ func (g *opw) forceNonActiveSegment() {
 		round()
 		g.emit(op{K: "complain", B: gen.Uniform(rt, "who", 4)}, op{K: "dkg", Mask: 0xff}, op{K: "end", A: 1})
 		if gen.Chance(rt, "toexec", 1, 2) {
-			g.emit(op{K: "endx", A: gen.OneOf(rt, "xn", 0, 1)})
+			g.endx(gen.OneOf(rt, "xn", 0, 1))
 		}
 		force(selFallen)
 		finish()
@@ -458,18 +493,18 @@ func (g *opw) staleHandoverSegment() {
 		}
 	}
 	// A: accepted at the voting end Te, key generation done at Te+3 (=> WAITING_SIGN, S1), ExecTime = Te+4
-	g.emit(op{K: "propT", Mask: g.memberMask(), A: gen.Uniform(rt, "thr", 4), B: 4}, op{K: "end", A: 1}, op{K: "endv"})
+	g.emit(op{K: "propT", Ms: g.execMs(), Mask: g.memberMask(), A: gen.Uniform(rt, "thr", 4), B: 4}, op{K: "end", A: 1}, op{K: "endv"})
 	dkg()
 	if gen.Chance(rt, "reqA", 1, 3) {
 		g.emit(op{K: "req", A: gen.Uniform(rt, "u", nReq)})
 	}
-	g.emit(op{K: "endx", A: gen.OneOf(rt, "xa", 0, 0, 1)}) // nobody signs S1: A is dropped
+	g.endx(gen.OneOf(rt, "xa", 0, 0, 1)) // nobody signs S1: A is dropped
 	if gen.Chance(rt, "idle", 1, 3) {
 		g.emit(op{K: "end", A: 1})
 	}
 	// B: room for three DKG blocks and the block in which the stale S1 completes, before its ExecTime
 	offB := gen.Range(rt, "offB", 6, 8)
-	g.emit(op{K: "propT", Mask: g.memberMask(), A: gen.Uniform(rt, "thr", 4), B: offB}, op{K: "end", A: 1}, op{K: "endv"})
+	g.emit(op{K: "propT", Ms: g.execMs(), Mask: g.memberMask(), A: gen.Uniform(rt, "thr", 4), B: offB}, op{K: "end", A: 1}, op{K: "endv"})
 	dkg()
 	g.emit(op{K: "sign", A: -1, Mask: 0xff}, op{K: "end", A: 1})
 	switch gen.Pick(rt, "staleThen", 5, 2, 1) {
@@ -478,7 +513,7 @@ func (g *opw) staleHandoverSegment() {
 	case 2:
 		g.emit(op{K: "req", A: gen.Uniform(rt, "u", nReq)})
 	}
-	g.emit(op{K: "endx", A: gen.OneOf(rt, "xb", 0, 0, 1, -1)})
+	g.endx(gen.OneOf(rt, "xb", 0, 0, 1, -1))
 	g.after()
 }
 
